@@ -242,6 +242,8 @@ def remMain (lines : Array String) : IO Unit := do
         out.putStrLn s!"ev res {showROut o}"
         for l in List.range nl do
           out.putStrLn (s!"state {l} : " ++ showEntries ((w.lists l).map (fun e => (e.id, e.cb)))).trimAsciiEnd.toString
+        let total := (List.range nl).foldl (fun acc l => acc + (w.lists l).length) 0
+        out.putStrLn s!"ledger {total} 0"
       | none => pure ()
     | _ => pure ()
 
